@@ -17,6 +17,7 @@ fn main() {
         ("c09", "record") => yv::c09::record(&args),
         ("c10", "record") => yv::c10::record(&args),
         ("c07", "record") => yv::c07::record(&args),
+        ("c08", "record") => yv::c08::record(&args),
         ("c20", "record") => yv::c20::record(&args),
         ("c20", "replay") => yv::c20::replay(&args),
         ("c04", "record") => yv::c04::record(&args),
